@@ -35,6 +35,8 @@ type ApplyArgs struct {
 	Env   map[string]string     `json:"env"`
 	Model any                   `json:"model"` // tagged tree of the including document (after interpolation)
 	Chain []string              `json:"chain"` // `included`
+	// SkipValidation loads without schema validation: an included file may then hand a non-mapping section to importResources
+	SkipValidation bool `json:"skip_validation,omitempty"`
 }
 
 func subst(s, from, to string) string { return strings.ReplaceAll(s, from, to) }
@@ -179,7 +181,10 @@ func RealApply(a ApplyArgs) any {
 		return map[string]any{"bad": "model is not a mapping"}
 	}
 	details := types.ConfigDetails{WorkingDir: subst(a.LWD, Root, root), Environment: env}
-	opts := loader.VerifToOptions(&details, []func(*loader.Options){func(o *loader.Options) { o.SetProjectName("p", true) }})
+	opts := loader.VerifToOptions(&details, []func(*loader.Options){func(o *loader.Options) {
+		o.SetProjectName("p", true)
+		o.SkipValidation = a.SkipValidation
+	}})
 	var chain []string
 	for _, c := range a.Chain {
 		chain = append(chain, subst(c, Root, root))
